@@ -539,7 +539,7 @@ def compare_run(run, owned):
             tags = [] if r.impl == r.model else ['cfg.restart']
         elif r.ws[0] == 'dircheck':
             tags = [] if r.impl == r.model else ['cfg.dir']
-        elif r.ws[0] in ('req', 'prefill', 'seq', 'illegal', 'fault', 'crash', 'pool'):
+        elif r.ws[0] in ('req', 'prefill', 'seq', 'illegal', 'fault', 'crash', 'pool', 'xhttp'):
             tags = []
         elif r.ws[0] == 'http':
             tags = http_field_diffs(r)
@@ -555,6 +555,14 @@ def compare_run(run, owned):
             tags = [t + '.' + opn if t.startswith('http.') else t for t in tags]
         else:
             tags = [] if r.i_out == r.m_out else tags_of_diff(r)
+        if tags and r.impl and r.model and ' consumed=' in r.impl and ' consumed=' in r.model:
+            # fault runs: the injected fault is identified by the call it hit in the implementation (name, occurrence).
+            # When only one side makes that call at all (a rewrite that adds or drops a read), one side was served an
+            # error and the other was not: the two outcomes are not comparable, and neither is a statement of C05,
+            # which the oracle checks on the implementation's own trace for every fault position.
+            ci, cm = r.impl.rsplit(' consumed=', 1)[1].split()[0], r.model.rsplit(' consumed=', 1)[1].split()[0]
+            if ci != cm:
+                tags = ['fault.reach']
         if not tags:
             continue
         if r.op in ('dump', 'rawdump') and not mutating:
